@@ -28,9 +28,10 @@ type c04Msg struct {
 type c04Config struct {
 	Name       string   `json:"name"`
 	Caps       []string `json:"caps"`
-	CapsTLS    []string `json:"caps_tls,omitempty"` // capabilities after STARTTLS (nil: same as Caps minus STARTTLS)
-	TLS        string   `json:"tls"`                // none | opportunistic | mandatory
-	Auth       string   `json:"auth,omitempty"`     // "" | PLAIN | LOGIN
+	CapsTLS    []string `json:"caps_tls,omitempty"`          // capabilities after STARTTLS (nil: same as Caps minus STARTTLS)
+	NoCapsTLS  bool     `json:"no_caps_after_tls,omitempty"` // the EHLO reply after STARTTLS is the bare greeting line (no extension at all)
+	TLS        string   `json:"tls"`                         // none | opportunistic | mandatory
+	Auth       string   `json:"auth,omitempty"`              // "" | PLAIN | LOGIN
 	RefuseEHLO bool     `json:"refuse_ehlo,omitempty"`
 	DSN        string   `json:"dsn,omitempty"` // "" | default | hdrs-never | full-success-delay
 	NoNoop     bool     `json:"no_noop,omitempty"`
@@ -74,6 +75,9 @@ func runC04Case(r *ev.Run, c c04Case) c04Result {
 			AllowUTF8:        true,
 			Caps: func(ehloN int, tlsOn bool) []string {
 				if tlsOn {
+					if cfg.NoCapsTLS {
+						return nil
+					}
 					if cfg.CapsTLS != nil {
 						return cfg.CapsTLS
 					}
@@ -221,6 +225,9 @@ func runC04Case(r *ev.Run, c c04Case) c04Result {
 		if cfg.CapsTLS != nil {
 			latestCaps = cfg.CapsTLS
 		}
+		if cfg.NoCapsTLS {
+			latestCaps = nil
+		}
 	}
 	heloOnly := false
 	for _, cr := range cmds {
@@ -313,6 +320,7 @@ func c04Configs(thorough bool) []c04Config {
 		{Name: "helo-fallback", Caps: all, RefuseEHLO: true, TLS: "none", DSN: "default", Msgs: []c04Msg{m(qp, 2), m(e8, 1)}, MaxDev: 1},
 		{Name: "nonoop-2x1", Caps: all, TLS: "none", NoNoop: true, Msgs: []c04Msg{m(qp, 1), m(qp, 1)}, MaxDev: 1},
 		{Name: "starttls-caps-change", Caps: []string{"STARTTLS", "8BITMIME", "DSN", "SMTPUTF8"}, CapsTLS: []string{"ENHANCEDSTATUSCODES"}, TLS: "opportunistic", DSN: "default", Msgs: []c04Msg{m(e8, 1), m(qp, 2)}, MaxDev: 1},
+		{Name: "starttls-no-caps-after-tls", Caps: []string{"STARTTLS", "8BITMIME", "DSN", "SMTPUTF8", "ENHANCEDSTATUSCODES"}, NoCapsTLS: true, TLS: "mandatory", DSN: "default", Msgs: []c04Msg{m(qp, 2), m(e8, 1)}, MaxDev: 1},
 		{Name: "starttls-mandatory", Caps: []string{"STARTTLS", "8BITMIME"}, CapsTLS: []string{"8BITMIME", "DSN"}, TLS: "mandatory", DSN: "hdrs-never", Msgs: []c04Msg{m(qp, 1)}, MaxDev: 1},
 		{Name: "auth-plain", Caps: []string{"AUTH PLAIN LOGIN", "8BITMIME"}, TLS: "none", Auth: "PLAIN", Msgs: []c04Msg{m(qp, 1), m(qp, 1)}, MaxDev: 1},
 		{Name: "auth-login", Caps: []string{"AUTH LOGIN", "DSN"}, TLS: "none", Auth: "LOGIN", Msgs: []c04Msg{m(qp, 2)}, MaxDev: 1},
